@@ -293,6 +293,18 @@ fn check_cont(run: &Run, c: &Cont) {
         let w = hi - lo;
         outside.extend([up(hi), hi + 1e-9 * w, hi + 0.5 * w, hi + 10.0 * w, hi + 1e6 * w.max(1.0), 1e300]);
     }
+    // far tails: up to 10^6 scale units from the centre, inside the support
+    {
+        let centre = if c.ref_mean_var.0.is_finite() { c.ref_mean_var.0 } else { c.grid[c.grid.len() / 2] };
+        let scale = if c.ref_mean_var.1.is_finite() && c.ref_mean_var.1 > 0.0 { c.ref_mean_var.1.sqrt() } else { (c.grid[c.grid.len() - 1] - c.grid[0]).abs().max(1e-300) / 10.0 };
+        for k in [30.0, 100.0, 720.0, 800.0, 1e4, 1e6] {
+            for t in [centre - k * scale, centre + k * scale] {
+                if t > lo && t < hi && t.is_finite() {
+                    pts.push(t);
+                }
+            }
+        }
+    }
     for &x in &pts {
         run.case();
         run.tr();
